@@ -243,28 +243,41 @@ def removeConn (s : Srv) (o : Nat) : Srv :=
               | none => s.reg),
       ctl := upd s.ctl o none }
 
+/-- "old connection exists and is another one": `clientRegistry.Remove(oldConn.GetConnID())` -/
+def evictOld (s : Srv) (c x : Nat) : Srv :=
+  match s.reg x with
+  | some o => if o != c then removeConn s o else s
+  | none => s
+
+/-- `ClientRegistry.UpdateAuth(connID, clientID, userID)` -/
+def updateAuth (s : Srv) (c x : Nat) : Srv :=
+  { s with ctl := upd s.ctl c (some { getCtl s c with id := some x, auth := true }), reg := upd s.reg x (some c) }
+
 /-- the block guarded by `isControlConnection && IsAuthenticated() && GetClientID() > 0`:
 evict the connection currently registered for the client if it is another one, then `UpdateAuth`. -/
-def registryUpdate (s : Srv) (c x : Nat) : Srv :=
-  let s1 := match s.reg x with
-    | some o => if o != c then removeConn s o else s
-    | none => s
-  { s1 with ctl := upd s1.ctl c (some { getCtl s1 c with id := some x, auth := true }), reg := upd s1.reg x (some c) }
+def registryUpdate (s : Srv) (c x : Nat) : Srv := updateAuth (evictOld s c x) c x
 
 def respOf : HRes → RespObs
   | .ok => .ok | .issued k => .new k | .challenge n => .ch n | .err => .fail
 
+/-- get-or-create the control connection of `c` (`NewControlConnection` + `RegisterControlConnection`) -/
+def ensureCtl (s : Srv) (c : Nat) : Srv :=
+  if (s.ctl c).isNone then { s with ctl := upd s.ctl c (some {}) } else s
+
+/-- the tail of `handleHandshake` after `authHandler.HandleHandshake` returned `res`: on error write a failure
+response and return; otherwise write the response (a closed stream makes that fail: return), then, for a control
+connection that is authenticated with a client id, update the registry. -/
+def respond (t : Srv) (c : Nat) (ty : Ty) (res : HRes) : Srv × RespObs :=
+  if res == .err then (t, if t.closed c then .none else .fail)
+  else if t.closed c then (t, .none)
+  else if ty != .tunnel && (getCtl t c).auth && (getCtl t c).id.isSome then
+    (registryUpdate t c ((getCtl t c).id.getD 0), respOf res)
+  else (t, respOf res)
+
 /-- `SessionManager.handleHandshake` on an already parsed request. -/
 def handleHandshake (s : Srv) (c : Nat) (ty : Ty) (req : Req) : Srv × RespObs :=
   if c ≥ s.nConns then (s, .none)                                      -- "connection not found"
-  else
-    let s0 := if (s.ctl c).isNone then { s with ctl := upd s.ctl c (some {}) } else s   -- NewControlConnection + Register
-    let r := HandleHandshake s0 c req
-    if r.2 == .err then (r.1, if r.1.closed c then .none else .fail)   -- failure response, then `return err`
-    else if r.1.closed c then (r.1, .none)                             -- the response cannot be written: `return err`
-    else if ty != .tunnel && (getCtl r.1 c).auth && (getCtl r.1 c).id.isSome then
-      (registryUpdate r.1 c ((getCtl r.1 c).id.getD 0), respOf r.2)
-    else (r.1, respOf r.2)
+  else respond (HandleHandshake (ensureCtl s c) c req).1 c ty (HandleHandshake (ensureCtl s c) c req).2
 
 /-- everything but the `Env` bookkeeping -/
 def stepCore (s : Srv) : Event → Srv × RespObs
